@@ -16,8 +16,8 @@ META = {
             "quick, depth <= 3 in thorough) x all input lists over {a,b,c} up to length 3 (4) x partial lists (generation mode) x query "
             "forms (phrase/3, phrase/2, body held in a variable, phrase/3 with an outer choice point), checks the machine invariants at "
             "every step and prints the expected answer sequence (bindings and remainders, order and multiplicity) or ball; every case "
-            "is replayed on the real system with the grammar consulted as real --> rules in operator syntax, once with terminals "
-            "written as lists and once as double-quoted strings.",
+            "is replayed on the real system with the grammar consulted as real --> rules in operator syntax, with terminals and inputs "
+            "written as lists and (thorough: every grammar, quick: every second grammar) again as double-quoted strings.",
     "note": "Trusted: TLC; spec/Prolog.tla + spec/Dcg.tla as the reading of the ISO DCG draft and of the dcgs.pl documentation; the "
             "renderer of this driver (operator syntax for grammar bodies, canonical text for arguments and {} goals). \\+//1 and "
             "if-then without else are specified as Scryer documents them (representation_error(dcg_body)) and only in bodies given to "
@@ -239,13 +239,14 @@ def group_vectors(vecs):
     return [groups[k] for k in sorted(groups)]
 
 
-def build_jobs(groups, batch=160, first_id=0):
-    """jobs of ~batch queries; returns jobs and, per job, the list of (step index, Case) of its queries"""
+def build_jobs(groups, batch=160, first_id=0, str_every=1):
+    """jobs of ~batch queries; returns jobs and, per job, the list of (step index, Case) of its queries.
+    Every grammar is replayed with list terminals; every str_every-th grammar also with double-quoted strings."""
     jobs, index = [], {}
     cur, cur_ix, nq = None, None, 0
     uid = 0
-    for grp in groups:
-        for as_str in (False, True):
+    for gi, grp in enumerate(groups):
+        for as_str in ((False, True) if gi % str_every == 0 else (False,)):
             cases = []
             uid += 1
             for v in grp:
@@ -287,9 +288,9 @@ def judge(rep, cs, res):
         rep.violation(cs.signature(d), {"vector": cs.vec, "as_str": cs.as_str, "diff": d, "grammar": cs.text, "query": cs.qtext})
 
 
-def replay_vectors(rep, vecs, workers):
+def replay_vectors(rep, vecs, workers, str_every=1):
     groups = group_vectors(vecs)
-    jobs, index = build_jobs(groups)
+    jobs, index = build_jobs(groups, str_every=str_every)
     results = run_jobs(jobs, workers=workers, job_timeout=300)
     redo = []
     for job in jobs:
@@ -346,7 +347,7 @@ def run(tier):
         if not vecs:
             raise common.ToolError("no vectors in chunk %d/%d" % (k, n))
         nvec += len(vecs)
-        ngram += replay_vectors(rep, vecs, workers)
+        ngram += replay_vectors(rep, vecs, workers, str_every=2 if quick else 1)
         samples += vecs[:: max(1, len(vecs) // 2)][:2]
         del vecs
     for v in samples[:5]:
